@@ -45,11 +45,11 @@ func (s tmplShape) String() string { return [...]string{"pointer", "slice", "map
 
 // decideShapeCond evaluates a pipeline that only looks at the head of $type.
 // known=false when the pipeline is anything else.
-func decideShapeCond(n parse.Node, shape tmplShape) (val, known bool) {
+func decideShapeCond(n parse.Node, shape tmplShape, dotIsType bool) (val, known bool) {
 	switch x := n.(type) {
 	case *parse.PipeNode:
 		if len(x.Decl) == 0 && len(x.Cmds) == 1 {
-			return decideShapeCond(x.Cmds[0], shape)
+			return decideShapeCond(x.Cmds[0], shape, dotIsType)
 		}
 	case *parse.CommandNode:
 		if len(x.Args) == 0 {
@@ -58,7 +58,7 @@ func decideShapeCond(n parse.Node, shape tmplShape) (val, known bool) {
 		id, ok := x.Args[0].(*parse.IdentifierNode)
 		if !ok {
 			if len(x.Args) == 1 {
-				return decideShapeCond(x.Args[0], shape)
+				return decideShapeCond(x.Args[0], shape, dotIsType)
 			}
 			return false, false
 		}
@@ -66,7 +66,7 @@ func decideShapeCond(n parse.Node, shape tmplShape) (val, known bool) {
 		case "or", "and":
 			res := id.Ident == "and"
 			for _, a := range x.Args[1:] {
-				v, k := decideShapeCond(a, shape)
+				v, k := decideShapeCond(a, shape, dotIsType)
 				if !k {
 					return false, false
 				}
@@ -79,7 +79,7 @@ func decideShapeCond(n parse.Node, shape tmplShape) (val, known bool) {
 			return res, true
 		case "not":
 			if len(x.Args) == 2 {
-				v, k := decideShapeCond(x.Args[1], shape)
+				v, k := decideShapeCond(x.Args[1], shape, dotIsType)
 				return !v, k
 			}
 		case "eq":
@@ -88,6 +88,10 @@ func decideShapeCond(n parse.Node, shape tmplShape) (val, known bool) {
 			}
 			head, lit := x.Args[1], x.Args[2]
 			hs := head.String()
+			if dotIsType {
+				// inside a template executed with the field type as its argument
+				hs = strings.Replace(strings.Replace(hs, "index . ", "index $type ", 1), "slice . ", "slice $type ", 1)
+			}
 			if !strings.Contains(hs, "$type") {
 				return false, false
 			}
@@ -127,7 +131,7 @@ func decideShapeCond(n parse.Node, shape tmplShape) (val, known bool) {
 	return false, false
 }
 
-func renderTmpl(n parse.Node, shape tmplShape, sb *strings.Builder) {
+func renderTmpl(n parse.Node, shape tmplShape, sb *strings.Builder, set map[string]*parse.Tree, dotIsType bool, depth int) {
 	switch x := n.(type) {
 	case nil:
 	case *parse.ListNode:
@@ -135,7 +139,7 @@ func renderTmpl(n parse.Node, shape tmplShape, sb *strings.Builder) {
 			return
 		}
 		for _, c := range x.Nodes {
-			renderTmpl(c, shape, sb)
+			renderTmpl(c, shape, sb, set, dotIsType, depth)
 		}
 	case *parse.TextNode:
 		sb.Write(x.Text)
@@ -145,23 +149,31 @@ func renderTmpl(n parse.Node, shape tmplShape, sb *strings.Builder) {
 		}
 		sb.WriteString("X")
 	case *parse.IfNode:
-		if v, known := decideShapeCond(x.Pipe, shape); known {
+		if v, known := decideShapeCond(x.Pipe, shape, dotIsType); known {
 			if v {
-				renderTmpl(x.List, shape, sb)
+				renderTmpl(x.List, shape, sb, set, dotIsType, depth)
 			} else if x.ElseList != nil {
-				renderTmpl(x.ElseList, shape, sb)
+				renderTmpl(x.ElseList, shape, sb, set, dotIsType, depth)
 			}
 			return
 		}
-		renderTmpl(x.List, shape, sb)
+		renderTmpl(x.List, shape, sb, set, dotIsType, depth)
 		if x.ElseList != nil {
-			renderTmpl(x.ElseList, shape, sb)
+			renderTmpl(x.ElseList, shape, sb, set, dotIsType, depth)
 		}
 	case *parse.RangeNode:
-		renderTmpl(x.List, shape, sb)
+		renderTmpl(x.List, shape, sb, set, false, depth)
 	case *parse.WithNode:
-		renderTmpl(x.List, shape, sb)
+		renderTmpl(x.List, shape, sb, set, false, depth)
 	case *parse.TemplateNode:
+		// inline the named template; when it is executed with $type as its argument,
+		// its dot stands for the type
+		t := set[x.Name]
+		if t == nil || t.Root == nil || depth > 4 {
+			return
+		}
+		bound := x.Pipe != nil && strings.TrimSpace(x.Pipe.String()) == "$type"
+		renderTmpl(t.Root, shape, sb, set, bound, depth+1)
 	}
 }
 
@@ -310,7 +322,7 @@ func ruleGENTMPL(p *Program, r *Reporter) {
 		for _, shape := range []tmplShape{shapePtr, shapeSlice, shapeMap} {
 			for _, name := range names {
 				var sb strings.Builder
-				renderTmpl(treeSet[name].Root, shape, &sb)
+				renderTmpl(treeSet[name].Root, shape, &sb, treeSet, false, 0)
 				if os.Getenv("GENTMPL_DEBUG") != "" {
 					fmt.Fprintf(os.Stderr, "=== %s %s\n%s\n", name, shape, sb.String())
 				}
